@@ -18,13 +18,13 @@ RULE = ('Labelled removal-enabled DynGraphs (3-5 nodes, <= 6 snapshot ids, int o
         'for the snapshot ids t with t+delta < last id. non-trivial = >= 2 label values in use and a scored node that '
         'reaches >= 2 others at different hop distances.')
 ASSUMPTIONS = ['e > t', "node ids are ints or '_'-free strings", 'static categorical labels, no hierarchies, sample=1']
-BUDGET = {'quick': {'cases': 3000, 'seconds': 50}, 'thorough': {'cases': 40000, 'seconds': 560}}
+BUDGET = {'quick': {'cases': 5000, 'seconds': 50}, 'thorough': {'cases': 40000, 'seconds': 560}}
 PATH_TYPES = ['shortest', 'fastest', 'foremost', 'fastest_shortest', 'shortest_fastest']
 EPS = 1e-9
 
 
 def strategy(tier):
-    return st.tuples(pc.graph_strategy(classes=('DynGraph',)), st.lists(st.integers(0, 2), min_size=8, max_size=8),
+    return st.tuples(pc.graph_strategy(classes=('DynGraph',), tier=tier), st.lists(st.integers(0, 2), min_size=8, max_size=8),
                      st.lists(st.integers(0, 2), min_size=8, max_size=8), st.integers(1, 2), st.integers(1, 2),
                      st.lists(st.sampled_from([0.5, 1, 2.5]), min_size=1, max_size=2, unique=True), st.sampled_from(PATH_TYPES),
                      st.integers(0, 9), st.sampled_from(['id', 'id', 'id', 'off', 'before']), st.integers(0, 5), st.integers(0, 5)).map(
